@@ -19,7 +19,7 @@ try:
         print("patch does not apply:", r.stderr); sys.exit(2)
     for p in props:
         t0 = time.time()
-        r = subprocess.run(["python3", "/verif/bin/check.py", p, "--tier", tier], capture_output=True, text=True, cwd="/verif")
+        r = subprocess.run(["python3", "/verif/bin/check.py", p, "--tier", tier], capture_output=True, text=True, cwd="/verif", timeout=2400)
         lines = [l for l in r.stdout.splitlines() if l.startswith(("VIOLATION", "KNOWN-FINDING", "ENGINE-ERROR", "  what"))][:4]
         res[p] = {"exit": r.returncode, "detected": r.returncode == 1, "wall_s": round(time.time() - t0, 1), "first_lines": lines, "tier": tier}
         print(sid, p, "exit", r.returncode, "DETECTED" if r.returncode == 1 else "MISSED" if r.returncode == 0 else "ENGINE-ERROR")
